@@ -111,11 +111,21 @@ pub fn run(tier: &str) -> Result<Report, String> {
                         let fp = fill(c, 0, &mk)?;
                         let ft = fill(c, 0, &twin)?;
                         let (rp, rt) = (ctx.ext_dirty(&fp.show(&ctx.user)), ctx.ext_dirty(&ft.show(&ctx.user)));
-                        let what = match (&rp, &rt) {
+                        let mut what = match (&rp, &rt) {
                             (Got::Set(a), Got::Set(b)) if a == b => None,
                             (Got::Set(_), Got::Set(_)) => Some("shortcut and generic evaluation return different sets".to_string()),
                             (a, b) => Some(format!("shortcut: {}, generic: {}", short(a), short(b))),
                         };
+                        // the self-loop-free entry point recognises the patterns too: where self-loops cannot matter (no EX AX AF
+                        // EG AU EW anywhere in the formula) its shortcut result must be the generic one as well
+                        if what.is_none() && !fp.uses_wild_or_dom() && crate::props::c18::loop_insensitive(&fp) {
+                            let ru = ctx.run(|| biodivine_hctl_model_checker::model_checking::model_check_formula_unsafe_ex(&fp.show(&ctx.user), &ctx.b.graph));
+                            what = match (&ru, &rt) {
+                                (Got::Set(a), Got::Set(b)) if a == b => None,
+                                (Got::Set(_), Got::Set(_)) => Some("the shortcut through model_check_formula_unsafe_ex differs from the generic evaluation".to_string()),
+                                (a, _) => Some(format!("shortcut through model_check_formula_unsafe_ex: {}", short(a))),
+                            };
+                        }
                         what.map(|w| Violation {
                             case: sem::case_json(&ctx, &fp, ck),
                             what: format!("[{pname}] {} vs twin {} on {} labels={}: {w}", fp.show(&ctx.user), ft.show(&ctx.user), ctx.b.name, ctx.label_desc),
@@ -226,7 +236,7 @@ pub fn run(tier: &str) -> Result<Report, String> {
         let probes = ["!{x}: AG EF {x}", "!{x}: AX {x}", "!{x}: AG EF ({x} & {x})", "!{x}: AX ({x} & {x})", "EF (!{x}: AX {x})", "AX (!{x}: AG EF {x})", "3{x}: @{x}: (!{y}: AG EF {y})", "!{x} in %d%: AG EF {x}", "!{x} in %e%: AX {x}", "V{y} in %d%: (!{x}: AG EF {x}) | {y}", "(!{x}: AX {x}) & %p%"];
         crate::history::run(&mut rep, &fam, &warm, &probes, ck, 0)?;
     }
-    rep.rule = format!("plus two-step histories: ordered pairs of look-alike graphs (networks over a, b with identical symbolic encoding but other update functions, with and without a shared function symbol; the same network with the unit set restricted to every second / the last colour) - warm-up formulae on the first graph, then probe formulae on the second on one fresh OS thread, every probe result against the explicit-state oracle and the unit set; every one-hole context with <= {ctx_nodes} nodes (all unary operators, & | => EU AU, bind/exists/forall with and without domains, jump) x the two shortcut patterns, their pattern-defeating twins and 16 near-miss families (other variable, domain on the binder, extra / fewer / swapped / other operators, other quantifier), on the core networks (and on the multi-colour ones with the graph restricted to every second colour) x 2 label families: shortcut vs twin must be the same set (BDD equality); the pattern occurring twice (inside a domain-restricted context and in any other context, both orders, joined by & / |; context sizes (domain, other) bounded by (3,2) in quick and on 3-variable networks, (4,2) and (3,3) in thorough on networks with <= 2 variables) vs the same with twins, and vs the oracle; and every formula must agree with the explicit-state oracle and stay inside the unit set; plus, on bundled models with 9..101 variables (child processes, wall limit; quick: cell_cycle_2016, myeloid, cell_division, guard cell, tacas2), set-level conditions that need neither the oracle nor the generic twin: the result of the attractor formula is closed under successors, reachable from every (state, colour) pair, three deterministic witness pairs lie in a terminal SCC (library forward/backward reachability) and are found by the generic evaluation restricted to the witness (`!{{x}} in %t%: AG EF {{x}}` = {{t}}), a witness outside is not; the steady-state formula equals the pairs where no variable can change; distinct_nontrivial = distinct non-trivial verdict tables");
+    rep.rule = format!("plus two-step histories: ordered pairs of look-alike graphs (networks over a, b with identical symbolic encoding but other update functions, with and without a shared function symbol; the same network with the unit set restricted to every second / the last colour) - warm-up formulae on the first graph, then probe formulae on the second on one fresh OS thread, every probe result against the explicit-state oracle and the unit set; every one-hole context with <= {ctx_nodes} nodes (all unary operators, & | => EU AU, bind/exists/forall with and without domains, jump) x the two shortcut patterns, their pattern-defeating twins and 16 near-miss families (other variable, domain on the binder, extra / fewer / swapped / other operators, other quantifier), on the core networks (and on the multi-colour ones with the graph restricted to every second colour) x 2 label families: shortcut vs twin must be the same set (BDD equality), also through model_check_formula_unsafe_ex where self-loops cannot matter; the pattern occurring twice (inside a domain-restricted context and in any other context, both orders, joined by & / |; context sizes (domain, other) bounded by (3,2) in quick and on 3-variable networks, (4,2) and (3,3) in thorough on networks with <= 2 variables) vs the same with twins, and vs the oracle; and every formula must agree with the explicit-state oracle and stay inside the unit set; plus, on bundled models with 9..101 variables (child processes, wall limit; quick: cell_cycle_2016, myeloid, cell_division, guard cell, tacas2), set-level conditions that need neither the oracle nor the generic twin: the result of the attractor formula is closed under successors, reachable from every (state, colour) pair, three deterministic witness pairs lie in a terminal SCC (library forward/backward reachability) and are found by the generic evaluation restricted to the witness (`!{{x}} in %t%: AG EF {{x}}` = {{t}}), a witness outside is not; the steady-state formula equals the pairs where no variable can change; distinct_nontrivial = distinct non-trivial verdict tables");
     Ok(rep)
 }
 
